@@ -1,47 +1,27 @@
-"""Static table: harness groups (how to build) and checks (how to run)."""
+"""Loads the check table from bin/checks.d/*.json.
 
-ROOT_CORE = [("harness/core", "zzverif/core")]
+Each fragment: {"groups": {name: {...}}, "checks": {Cxx: {...}}, "manifest": {Cxx: {...}}}
 
-GROUPS = {
-    "cl": {"pkg": "./zzverif/cl", "graft": ROOT_CORE + [("harness/cl", "zzverif/cl")]},
-}
+group:   pkg (go package path relative to moddir), moddir (default "."), kind ("build"|"test"),
+         graft: [[path under /verif, virtual path under /repo], ...]  (directories or single files)
+check:   group, quick/thorough: {deadline, shards, args}, require_vacuity, rule, assumptions, engine
+manifest: engine, technique, text, note
+"""
+import glob
+import json
+import os
 
-A_ASSUME = [
-    "handlers are driven through the application's MsgServiceRouter with an infinite gas meter, in the default exec mode",
-    "state cloning by CacheContext is exact (cosmos-sdk store semantics trusted)",
-    "IAVL/commit and CometBFT are outside the explored system",
-]
-
-CHECKS = {
-    "C07": {
-        "group": "cl",
-        "quick": {"deadline": 240},
-        "thorough": {"deadline": 1500},
-        "require_vacuity": ["empty_pool_states", "price_in_empty_gap"],
-        "rule": "explicit-state DFS over all operation sequences of the CL alphabet up to the depth bound, from the initial and "
-                "three composed seed states, per configuration; states deduplicated by SHA-256 of the full content of every "
-                "store the handlers can write; invariants evaluated in every distinct state",
-        "assumptions": A_ASSUME,
-    },
-    "C01": {
-        "group": "cl",
-        "quick": {"deadline": 300},
-        "thorough": {"deadline": 1800},
-        "require_vacuity": ["exit_orders_executed", "states_with_claimable_spread", "states_with_claimable_incentives"],
-        "rule": "same exploration as C07; in every distinct state all positions claim and fully withdraw on discarded branches "
-                "in every order (<=3 positions: all permutations; more: rotations + reverse), now and after the largest uptime",
-        "assumptions": A_ASSUME,
-    },
-}
-
-A_NOTE = ("Trusted: cosmos-sdk store/CacheContext semantics, bank module, Go runtime. Bounds: the alphabet, depth, seeds and "
-          "configurations recorded in the evidence file; handlers run with an infinite gas meter.")
-
-MANIFEST_TEXT = {
-    "C07": {"engine": "A ledger explorer", "technique": "explicit-state model checking of the implementation (bounded DFS over operation histories, state-hash dedup, invariant in every state)",
-            "text": "Every operation sequence of the CL alphabet up to the depth bound, from the initial state and three composed mid-life seeds, in each configuration, is executed on the real application; after every transition the pool's liquidity, tick set, tick gross/net and price/tick agreement are recomputed from a ledger built from responses only and compared. Coverage is complete within the stated bounds, silent outside.",
-            "note": A_NOTE},
-    "C01": {"engine": "A ledger explorer", "technique": "explicit-state model checking of the implementation (bounded DFS over operation histories; exit-in-every-order probe on discarded branches in every state)",
-            "text": "Same exploration as C07; in every distinct state all holders claim and fully withdraw on discarded branches in every order, now and after the largest uptime, and the reward accounts are compared with the summed claimables.",
-            "note": A_NOTE},
-}
+_D = os.path.join(os.path.dirname(os.path.abspath(__file__)), "checks.d")
+GROUPS, CHECKS, MANIFEST_TEXT = {}, {}, {}
+for _f in sorted(glob.glob(os.path.join(_D, "*.json"))):
+    with open(_f) as _fh:
+        _j = json.load(_fh)
+    for _k, _v in _j.get("groups", {}).items():
+        if _k in GROUPS:
+            raise SystemExit("duplicate group %s in %s" % (_k, _f))
+        GROUPS[_k] = _v
+    for _k, _v in _j.get("checks", {}).items():
+        if _k in CHECKS:
+            raise SystemExit("duplicate check %s in %s" % (_k, _f))
+        CHECKS[_k] = _v
+    MANIFEST_TEXT.update(_j.get("manifest", {}))
